@@ -82,7 +82,10 @@ def reproduce(mod, v):
     seen = []
     for _ in range(2):
         res = mod.run_case(v["case"])
-        subs = [engine.canon(r[3].get("sub")) for r in res if r[3] is not None]
+        if isinstance(res, dict):
+            subs = [engine.canon(x.get("sub")) for x in res.get("violations", [])]
+        else:
+            subs = [engine.canon(r[3].get("sub")) for r in res if r[3] is not None]
         seen.append(engine.canon(v["violation"].get("sub")) in subs)
     if seen[0] != seen[1]:
         sys.stderr.write("BROKEN: violation does not reproduce deterministically: %s\n" % engine.canon(v)[:400])
@@ -191,9 +194,13 @@ def main(argv=None):
         "workers": int(m.get("workers", 1)),
         "known_findings_hit": attributed,
     }
-    for k in ("states", "transitions", "traces_validated_against_impl"):
+    for k, src in (("states", "states"), ("transitions", "transitions"), ("traces_validated_against_impl", "traces_validated")):
         if k in m:
             cov[k] = int(m[k])
+        elif src in m["extra"]:
+            cov[k] = int(m["extra"][src])
+    if mod.LEVEL == "model_checking":
+        cov.setdefault("traces_validated_against_impl", 0)
     if hasattr(mod, "describe"):
         cov.update(mod.describe(tier, seed))
     doc = {
